@@ -1,4 +1,8 @@
+\* the design, tool folder on another file system than the system locations (link(2) -> EXDEV)
 SPECIFICATION Spec
+CONSTANTS
+  SameFs = FALSE
+  LinkBackup = FALSE
 INVARIANTS
   TypeOK
   RoundTrip
@@ -14,6 +18,8 @@ INVARIANTS
   BackupExact
   RtMeansBackupHeld
   FailOnlyFromPartialBackup
+  LnkSound
+  BackupIsSeparate
 PROPERTIES
   StopBeforeReplace
   Frame
